@@ -27,7 +27,7 @@ TCoord == Is({"SetCoordSystem","SetCoordView"}) /\ CoordC(C) /\ ObsOK
 TPush  == Is({"Push"}) /\ DoPush /\ ObsOK
 TPop   == Is({"Pop"}) /\ DoPop /\ ObsOK
 TZ     == Is({"SetZIndex"}) /\ ZC(Ev.a[1]) /\ ObsOK
-TDraw  == Is({"DrawPath","DrawLine","DrawText","DrawImage","FitImageCover","FitImageFill","Fill","Stroke","FillStroke"}) /\ DrawC(C) /\ ObsOK
+TDraw  == Is({"DrawPath","DrawLine","DrawText","DrawImage","DrawImageHalf","FitImageCover","FitImageFill","Fill","Stroke","FillStroke"}) /\ DrawC(C) /\ ObsOK
 TCanvas == Is({"CanvasTransform","CanvasClip","CanvasFit"}) /\ CanvasC(C) /\ ObsOK
 TRender == /\ Is({"RenderTo"}) /\ Log(C) /\ UNCHANGED <<st, view, cview, csys, stack, z, layers, W, H>>
            /\ CheckObs => LET r == RenderOrder IN
